@@ -224,7 +224,8 @@ def check_case(ctx, case):
             msg = 'closed box is not emitted as exactly the rect %s: got %s' % (show_el(want), [show_el(e) for e in sc.els[:4]])
         if msg is None:
             texts = sorted((e[3], e[2], e[4]) for e in sc.els if e[0] == 'text')
-            wt = sorted((F(y * 16 + 12), F(x * 8 + 2), t) for x, y, t in case['texts'])
+            ax, ay = ctx.anchor()
+            wt = sorted((F(y * 16) + ay, F(x * 8) + ax, t) for x, y, t in case['texts'])
             if texts != wt:
                 msg = 'interior labels: expected %r, got %r' % (wt, texts)
     else:
@@ -272,6 +273,13 @@ def box_case(rng, w, h, style, ox, oy, with_dash=None):
         nrows = 1 if mode < 0.3 else rng.randint(1, min(h, 3))
         for y in rng.sample(range(h), nrows):
             lab = rng.choice(LABELS)
+            if w >= 8 and rng.random() < 0.15:
+                # a quoted label, also with characters that occupy a column but have no width of their own
+                qb = rng.choice(['ok', 'e\u0301', 'a\u200bb', 'x\u200dy', '\u05d0\u200f'])
+                pad = rng.randint(1, w - len(qb) - 3)
+                interior[y] = ' ' * pad + '"' + qb + '"'
+                texts.append((ox + 1 + pad + (1 if name == 'biground' else 0), oy + 1 + y, qb))
+                continue
             if len(lab) + 2 > w:
                 lab = lab[:w - 2].strip()
                 if not lab:
@@ -293,6 +301,10 @@ def box_case(rng, w, h, style, ox, oy, with_dash=None):
         r = rows[oy + 1 + y]
         rows[oy + 1 + y] = r[:ox - len(word)] + word + r[ox:]
         texts.append((ox - len(word), oy + 1 + y, word))
+    if rng.random() < 0.05:
+        # the blanks of the page are no-break spaces (text copied from a web page): still blanks, one column each
+        nb = rng.choice(['\u00a0', '\u2007', '\u202f'])
+        rows = [r.replace(' ', nb) for r in rows]
     dashed = (hz in DASHED and w > 0) or (vt in DASHED and h > 0) or bool(dash_rows)
     want = expected_rect(w, h, rounded, dashed, ox, oy, big=(name == 'biground'))
     return {'kind': 'box', 'rows': rows, 'style': name, 'want': [want[0], list(want[1])] + [str(x) for x in want[2:]], 'texts': texts}
